@@ -892,7 +892,6 @@ func (e *Engine) accessClosed(pk string, p *Protocol) string {
 	return strings.Join(problems, "; ")
 }
 
-
 // onlyCalledFrom: fn is a helper whose every static call site lies in one of the
 // listed functions (it is inlined into them when they are verified), and it is
 // not used as a value.
